@@ -6,7 +6,11 @@ Spec (Michelson reference, written independently of pytezos):
   result class per dispatch pair; mathematical value; fails exactly on mutez overflow (result >= 2^63) or a negative mutez
   (deprecated SUB on mutez); None exactly on division by zero / negative mutez difference / negative ISNAT argument;
   EDIV is Euclidean:  a == q*b + r  and  0 <= r < |b|.
-LSL / LSR: all operand values with the shift amount enumerated 0..257 (fail exactly above 256).
+LSL / LSR: all operand values with the shift amount enumerated 0..258 (fail exactly above 256), and one run with the SHIFT
+AMOUNT SYMBOLIC over everything >= 257 (must fail for all of them, not just for the enumerated 257 / 258).
+Operand classes: every dispatch pair is run twice - on the bare library classes (what instruction results such as ABS / ADD
+carry) and on classes built the way the interpreter builds them for PUSHed / parameter / storage values: a created subclass,
+the first operand with a %field and :type annotation (a component taken out of an annotated pair).
 Out of the engine's reach (two symbolic bit-vector operands, symbolic byte lengths): AND/OR/XOR on two nats, BYTES / NAT /
 INT on bytes, bytes variants — these are covered by the bounded part (C16_R).
 """
@@ -23,7 +27,23 @@ def Ty(name):
     return dict(int=T.IntType, nat=T.NatType, mutez=T.MutezType, timestamp=T.TimestampType, bool=T.BoolType)[name]
 
 
-def operand(e, tname, label):
+def operand_class(tname, variant, i):
+    """variant 0: the bare library class (results of instructions: NatType.from_value(...));
+    variant 1: classes as MichelsonType.match builds them for literals - a fresh subclass; operand 0 carries %field and :type
+    annotations (value taken out of an annotated pair component), operand 1 is the plain created subclass"""
+    cls = Ty(tname)
+    if variant == 0:
+        return cls
+    from pytezos.michelson.types.base import MichelsonType
+    expr = {'prim': tname}
+    if i == 0:
+        expr['annots'] = ['%fld', ':ty']
+    made = MichelsonType.match(expr)
+    assert made is not cls and issubclass(made, cls) and (i != 0 or made.field_name == 'fld')
+    return made
+
+
+def operand(e, tname, label, variant=0, i=0):
     if tname == 'bool':
         v = e.bool(label)
     else:
@@ -32,7 +52,7 @@ def operand(e, tname, label):
             e.assume(v.e >= 0)
         if tname == 'mutez':
             e.assume(z3.And(v.e >= 0, v.e < M63))
-    o = Obj(Ty(tname))
+    o = Obj(operand_class(tname, variant, i))
     o.f['value'] = v
     return o, v.e
 
@@ -95,6 +115,15 @@ def payload(x):
     return type(x).prim, vars(x)
 
 
+def _shape_of_spec(w):
+    return (w[1],) if w[0] == 'val' else ('pair', _shape_of_spec(w[1]), _shape_of_spec(w[2])) if w[0] == 'pair' else ('option', _shape_of_spec(w[2]))
+
+
+def _shape_of_type(t):
+    p = getattr(t, 'prim', None)
+    return (p,) + tuple(_shape_of_type(a) for a in getattr(t, 'args', [])) if p in ('pair', 'option') else (p,)
+
+
 def match(e, oid, got, want):
     """obligations: got (pytezos value) has the class and value of the spec structure `want`"""
     prim, f = payload(got)
@@ -115,6 +144,9 @@ def match(e, oid, got, want):
         _, none_cond, inner = want
         e.check(f'{oid}.class==option', z3.BoolVal(prim == 'option'))
         if prim == 'option':
+            # the option's ARGUMENT TYPE is the static result type in the None case too (ISNAT: option nat, EDIV: option (pair q r), ...)
+            cls_ = got.cls if isinstance(got, Obj) else type(got)
+            e.check(f'{oid}.option_argument_type==static', z3.BoolVal(_shape_of_type(cls_.args[0]) == _shape_of_spec(inner)))
             item = f.get('item')
             if item is None:
                 e.check(f'{oid}.None.only_if', none_cond)
@@ -123,16 +155,17 @@ def match(e, oid, got, want):
                 match(e, oid + '.some', item, inner)
 
 
-def h_instr(key):
+def h_instr(key, variant=0):
     prim, tnames = key[0], key[1:]
     spec = SPECS[key]
+    vtag = '' if variant == 0 else ';created/annotated operand classes'
 
     def h(e: Engine):
         from pytezos.michelson.stack import MichelsonStack
         from pytezos.michelson.types import StringType
         ops, vals = [], []
         for i, t in enumerate(tnames):
-            o, v = operand(e, t, 'ab'[i])
+            o, v = operand(e, t, 'ab'[i], variant, i)
             ops.append(o)
             vals.append(v)
         sp = spec(*vals)
@@ -140,7 +173,7 @@ def h_instr(key):
         st = MichelsonStack()
         st.items = ops + [below]
         I = instr(prim)
-        oid = f'{prim}[{",".join(tnames)}]'
+        oid = f'{prim}[{",".join(tnames)}{vtag}]'
         try:
             e.call(e.unwrap(I.__dict__['execute'].__func__), [I, st, [], None])
         except RaiseEx as ex:
@@ -185,9 +218,40 @@ def h_shift(prim, shift):
     return h
 
 
+def h_shift_sym(prim):
+    """the shift amount itself symbolic, over EVERY natural above 256 (the enumeration stops at 258; the bounded part has
+    1000 and 2^64): the instruction must fail.  (A symbolic amount <= 256 is outside the engine: `a << s`.)"""
+    def h(e: Engine):
+        from pytezos.michelson.stack import MichelsonStack
+        from pytezos.michelson.types import StringType
+        a, _ = operand(e, 'nat', 'a')
+        b, bv = operand(e, 'nat', 'b')
+        e.assume(bv >= 257)
+        below = StringType('below')
+        st = MichelsonStack()
+        st.items = [a, b, below]
+        I = instr(prim)
+        try:
+            e.call(e.unwrap(I.__dict__['execute'].__func__), [I, st, [], None])
+        except RaiseEx:
+            e.check(f'{prim}::fails.for_every_shift_above_256[symbolic amount]', z3.BoolVal(True))
+            return
+        except Unsupported as u:
+            if 'symbolic shift amount' not in str(u):
+                raise
+            # the path got PAST the overflow guard and reached `a << s` / `a >> s` with s >= 257 (the engine does not evaluate
+            # a symbolic shift, and need not): that path is feasible (the fork was checked), its model is a counterexample
+        e.check(f'{prim}::fails.for_every_shift_above_256[symbolic amount]', z3.BoolVal(False))
+    return h
+
+
 def job(kind, arg):
     if kind == 'instr':
         return h_instr(tuple(arg))
+    if kind == 'instr_cls':
+        return h_instr(tuple(arg), 1)
+    if kind == 'shift_sym':
+        return h_shift_sym(arg)
     prim, lo, hi = arg
 
     def h(e):
@@ -212,7 +276,13 @@ def native(case):
             return 'True' if v else 'False'
         return str(int(v))
     i = Interpreter()
-    code = ' ; '.join(f'PUSH {t} {lit(t, v)}' for t, v in reversed(list(zip(tnames, vals)))) + f' ; {prim}'
+    if case.get('annotated') and 'shift' not in case:
+        # first operand out of a component with %field / :type annotations (its run-time class keeps them)
+        rest = f'{tnames[1]}' if len(tnames) > 1 else 'unit'
+        restv = lit(tnames[1], vals[1]) if len(tnames) > 1 else 'Unit'
+        code = f'PUSH (pair ({tnames[0]} %fld :ty) {rest}) (Pair {lit(tnames[0], vals[0])} {restv}) ; ' + ('UNPAIR' if len(tnames) > 1 else 'CAR') + f' ; {prim}'
+    else:
+        code = ' ; '.join(f'PUSH {t} {lit(t, v)}' for t, v in reversed(list(zip(tnames, vals)))) + f' ; {prim}'
     r = i.execute(code)
     # spec on concrete values via z3 evaluation
     if 'shift' in case:
@@ -263,12 +333,15 @@ def run_P(ck):
     ck.trust('z3 5.1 (nonlinear integer arithmetic for MUL/EDIV)')
     keys = sorted(SPECS)
     jobs = [(f'{k}', 'props.C16_P:job', ('instr', list(k)), None) for k in keys]
+    jobs += [(f'{k};cls', 'props.C16_P:job', ('instr_cls', list(k)), None) for k in keys]
+    jobs += [(f'{prim}[symbolic shift]', 'props.C16_P:job', ('shift_sym', prim), None) for prim in ('LSL', 'LSR')]
     chunk = 43
     for prim in ('LSL', 'LSR'):
         for lo in range(0, 259, chunk):
             jobs.append((f'{prim}[{lo}..{min(lo + chunk, 259) - 1}]', 'props.C16_P:job', ('shift', (prim, lo, min(lo + chunk, 259))), None))
     ck.bound('S.dispatch_pairs', len(keys))
-    ck.bound('S.shift_amounts', '0..258 enumerated, operand symbolic')
+    ck.bound('S.shift_amounts', '0..258 enumerated, operand symbolic; all amounts >= 257 symbolic')
+    ck.bound('S.operand_classes', 'bare library classes; created subclass with %field :type annotations / plain created subclass')
     for res, j in zip(run_jobs(jobs), jobs):
         if 'error' in res:
             raise RuntimeError(f"harness {res['label']} crashed:\n{res['error']}")
@@ -276,8 +349,10 @@ def run_P(ck):
         kind, arg = j[2]
 
         def nat_(cex, kind=kind, arg=arg):
-            if kind == 'instr':
-                c = dict(prim=arg[0], types=list(arg[1:]), a=cex.get('a', 0), b=cex.get('b', 0))
+            if kind in ('instr', 'instr_cls'):
+                c = dict(prim=arg[0], types=list(arg[1:]), a=cex.get('a', 0), b=cex.get('b', 0), annotated=int(kind == 'instr_cls'))
+            elif kind == 'shift_sym':
+                c = dict(prim=arg, types=['nat', 'nat'], a=cex.get('a', 1), shift=cex.get('b', 257))
             else:
                 c = None
                 for s in (0, 1, 255, 256, 257):
@@ -292,3 +367,45 @@ def run_P(ck):
             return native(c)
         report(ck, eng, [('', 'props.C16_P:replay', nat_, None)], kind='S')
         functions_interpreted(ck, eng)
+
+
+def run_option_types(ck):
+    """C02: only the `option_argument_type==static` obligations of the option-returning arithmetic instructions (both outcomes, all operand values)"""
+    keys = [k for k in sorted(SPECS) if k[0] in ('ISNAT', 'EDIV', 'SUB_MUTEZ')]
+    jobs = [(f'{k}', 'props.C16_P:job', ('instr', list(k)), None) for k in keys]
+    for res, j in zip(run_jobs(jobs), jobs):
+        if 'error' in res:
+            raise RuntimeError(f"harness {res['label']} crashed:\n{res['error']}")
+        res = dict(res, obl={k: v for k, v in res['obl'].items() if 'option_argument_type' in k})
+        eng = FakeEng(res)
+        arg = j[2][1]
+
+        def nat_(cex, arg=arg):
+            c = dict(prim=arg[0], types=list(arg[1:]), a=cex.get('a', 0), b=cex.get('b', 0), annotated=0, type_only=True)
+            cex.clear()
+            cex.update(c)
+            return native_option_type(c)
+        report(ck, eng, [('', 'props.C16_P:replay_option_type', nat_, None)], kind='P')
+
+
+def native_option_type(case):
+    from pytezos.michelson.repl import Interpreter
+    prim, types = case['prim'], case['types']
+    vals = [case.get('a', 0), case.get('b', 0)][:len(types)]
+    code = ' ; '.join(f'PUSH {t} {v}' for t, v in reversed(list(zip(types, vals)))) + f' ; {prim}'
+    it = Interpreter()
+    r = it.execute(code)
+    if r.error is not None:
+        return False, f'{code}: fails ({r.error}) — not a type question'
+    top = it.stack.items[0]
+    want = {'ISNAT': ('nat',), 'SUB_MUTEZ': ('mutez',)}.get(prim)
+    got = _shape_of_type(type(top).args[0]) if type(top).prim == 'option' else None
+    if want is None:      # EDIV: pair of the quotient / remainder types of the dispatch table
+        q = {('nat', 'nat'): 'nat', ('mutez', 'nat'): 'mutez', ('mutez', 'mutez'): 'nat'}.get(tuple(types), 'int')
+        rr = {('mutez', 'nat'): 'mutez', ('mutez', 'mutez'): 'mutez'}.get(tuple(types), 'nat')
+        want = ('pair', (q,), (rr,))
+    return got != want, f'`{code}` leaves a value of type option {got}; the typing rule gives option {want}'
+
+
+def replay_option_type(case):
+    return native_option_type(case)
